@@ -42,6 +42,32 @@ claim("C10", "exploration",
       "Assumed contract of cwcwidth (probed); cutter and run walk not under deductive contract (stated bound).",
       "contract-based deductive verification (width functions) + exhaustive bounded checking against a column model", "DESIGN 9/C10")
 
+claim("C01", "proof",
+      "Chunk.color_str is decided by a complete finite split over all 59 049 attribute dicts (quick: 6 561) with the run's text an opaque "
+      "parametric token: the real body is executed per dict and the reference SGR interpreter must display the token exactly once "
+      "with exactly the dict's formatting, return to the default state and see only SGR; FmtStr.__str__ is proved to be the "
+      "concatenation of the runs' strings (memo contract) for any number of runs; bounded: concrete texts and multi-run/derived values.",
+      "Trusted: ECMA-48 reading of SGR, composition lemma of the reference interpreter over concatenation, parametricity check, "
+      "inlined helper seq, attribute dicts as produced by the public API.",
+      "complete finite case split with parametric text (partial evaluation of the real AST) + contract on __str__ + bounded checking", "DESIGN 9/C01")
+claim("C04", "exploration",
+      "The row primitive FmtStr.setslice_with_length is proved against its contract (over the proved contract of splice) for all rows, "
+      "values and bounds; FSArray.__setitem__/__getitem__/fsarray are decided by a bounded suite: assignment histories against a "
+      "cell-grid model (24 000 quick / 400 000 thorough) plus an exhaustive small-scope run of the row contract.",
+      "FSArray methods not under deductive contract (comprehensions over zip, float slicesize); known finding: over-long row into the blank tail.",
+      "contract-based deductive verification of the row primitive + bounded history checking against a grid model", "DESIGN 9/C04")
+claim("C14", "exploration",
+      "FrozenAttributes.extend/remove decided by a complete finite split over key presence with symbolic values; copy_with_new_atts and "
+      "new_with_atts_removed proved pointwise (for every run: same text, attributes = extend/remove of the old ones); parse_args, "
+      "shared_atts, copy_with_new_str, fmtfuncs decided by exhaustive-finite / bounded evaluation against the statement.",
+      "Attribute keys within the 8 names; parse_args et al. not under deductive contract; known finding: style values not type-checked.",
+      "finite split + contract-based deductive verification (pointwise map contracts) + exhaustive-finite evaluation of parse_args", "DESIGN 9/C14")
+claim("C19", "exploration",
+      "FmtStr.__eq__/__hash__ and Chunk.__eq__/__hash__ proved against 'equal iff same terminal string' / 'hash is a function of it'; "
+      "reflected comparison, dict/set behaviour and eval(repr(f)) decided by a bounded all-pairs suite.",
+      "repr is reflective string building (bounded only); Python's reflected-operator rule assumed.",
+      "contract-based deductive verification (==/hash) + bounded all-pairs checking", "DESIGN 9/C19")
+
 ALL = [f"C{i:02d}" for i in range(1, 21)]
 NA_REASON = "check not built yet in this session (work in progress; see DESIGN.md section 9 for the plan)"
 m = dict(version=1, setup_cmd="bin/setup",
